@@ -15,11 +15,15 @@ import extract
 import mir
 
 PROPS = ["C%02d" % i for i in range(1, 21)]
+# MATRIX_REPO: a scratch worktree of /repo at the same commit (so that /repo itself stays
+# untouched while other checks are running on it)
+R = os.environ.get("MATRIX_REPO", "/repo")
+TAG = "matrix" if R == "/repo" else "matrix-" + os.path.basename(R.rstrip("/"))
 known = {k["key"] for k in core.load_known() if k.get("status") == "open"}
 
 
 def analyse(tag):
-    path, secs, reused = extract.extract("full", tag=tag)
+    path, secs, reused = extract.extract("full", repo=R, tag=tag)
     facts = mir.load(path)
     res = {}
     for p in PROPS:
@@ -37,25 +41,25 @@ def analyse(tag):
 
 
 out = {}
-if subprocess.run(["git", "-C", "/repo", "diff", "--quiet"]).returncode != 0:
-    raise SystemExit("/repo is dirty")
-base = analyse("matrix")
+if subprocess.run(["git", "-C", R, "diff", "--quiet"]).returncode != 0:
+    raise SystemExit(R + " is dirty")
+base = analyse(TAG)
 out["<unchanged>"] = {p: v for p, v in base.items() if v}
 for sd in sys.argv[2:]:
     patch = os.path.join(sd, "patch.rebased.diff")
     if not os.path.exists(patch):
         patch = os.path.join(sd, "patch.diff")
-    if subprocess.run(["git", "-C", "/repo", "apply", patch]).returncode != 0:
+    if subprocess.run(["git", "-C", R, "apply", patch]).returncode != 0:
         out[sd] = {"error": "patch does not apply"}
         continue
     try:
         try:
-            r = analyse("matrix")
+            r = analyse(TAG)
             out[sd] = {p: [k for k in v if k not in base.get(p, [])] for p, v in r.items()}
             out[sd] = {p: v for p, v in out[sd].items() if v}
         except SystemExit as e:
             out[sd] = {"error": str(e)}
     finally:
-        subprocess.run(["git", "-C", "/repo", "checkout", "--", "."], check=True)
+        subprocess.run(["git", "-C", R, "checkout", "--", "."], check=True)
     print(sd, {p: len(v) for p, v in out[sd].items()} if "error" not in out[sd] else out[sd], flush=True)
 json.dump(out, open(sys.argv[1], "w"), indent=1)
